@@ -9,6 +9,13 @@
    Not carried by these theorems (assumption A-fs): that std::fs, Path::join, normpath and glob behave like
    the tree functions l_* of the model (symlinks, permissions, non-UTF-8 names, concurrent modification,
    I/O errors other than file/directory conflicts are outside the model); reached only by the correspondence.
+   Also outside (review r4, C12-4): the NAME LIMITS of a real file system.  [plain] / [plain_name] / [plainP] accept every
+   non-empty component other than "." and ".." without '/', so the model (and [wf_layer]) admits components that contain
+   NUL or are longer than NAME_MAX (255 bytes on the usual Unix file systems) and paths longer than PATH_MAX; the real
+   write("a\0b") = WriteError(.. unexpected NUL byte), write(<300 x 'x'>) = WriteError(.. File name too long), where the
+   model answers Ok.  These are "I/O errors other than file/directory conflicts": the success criteria below
+   (C12_write_ok_iff, C12_create_dir_ok_iff) hold for components without NUL of at most 255 bytes (what the
+   correspondence generates).
 
    Statement discipline: [C12_write_fail] is weaker than DESIGN's "fs_write = Err -> S' = S" because that
    is false of the code: for a path with a trailing '/' the missing ancestor directories stay created in
@@ -148,12 +155,144 @@ Section Codec.
     exists s, fs_resolve S' p loc = FOk (Some (length (layers S') - 1, s))%nat.
   Proof. exact (queries_after_write compress decompress). Qed.
 
-  (* the stored bytes are the codec's output for names with the compressed suffix, the payload itself otherwise *)
+  (* the stored bytes are the codec's output for names with the compressed suffix, the payload itself otherwise.
+     UNFOLDING LEMMA (proof: reflexivity): it restates the definition of [encode_by_name] for the reader and establishes
+     nothing beyond "the model is written that way"; what ties it to the code is the correspondence (stored files are compared). *)
   Theorem C12_stored_form : forall S p b,
     encode_by_name compress S p b =
       if is_compressed (c_comp (conf S)) p then lift_codec (compress (c_comp (conf S)) b) else FOk b.
   Proof. reflexivity. Qed.
 End Codec.
+
+(* ---- WHEN write and create_dir succeed (review r4, C12-2) and what create_dir leaves unchanged (C12-7).
+   Proofs/LayeredFSOk.v; derived from the definitions alone, no well-formedness needed.  Every other positive theorem of this
+   file is conditional on "fs_write .. = (S', FOk tt)"; these say when that happens. ---- *)
+From Mila Require Import Proofs.LayeredFSOk Proofs.LayeredFSOkReal Proofs.LayeredFSRunFrame.
+
+(* the addressed location: the path string (loc = false) or its localisation (loc = true), parsed into plain components *)
+Theorem C12_addr_spec : forall S p loc s a,
+  fs_addr S p loc = FOk (s, a) <->
+  (if loc then localize (c_loc (conf S)) (lng S) p = LOk s else s = p) /\ parse_path s = Some a.
+Proof. exact fs_addr_iff. Qed.
+
+Section WhenOk.
+  Variable compress decompress : cfmt -> bytes -> outcome bytes.
+
+  (* write succeeds IFF the path localizes (when asked to) to a modelled path WITHOUT trailing '/', the codec accepts the
+     payload (it is only consulted for names with the game's compressed suffix), there is a layer, and in the TOP layer no
+     proper ancestor of the target is a file and the target itself is not a directory (so it is not the layer root "").
+     Lower layers play no role: a file in the way there does not block, a directory there does not help. *)
+  Theorem C12_write_ok_iff : forall S p b loc,
+    snd (fs_write compress S p b loc) = FOk tt <->
+    exists s pp c, fs_addr S p loc = FOk (s, (pp, false)) /\ encode_by_name compress S p b = FOk c /\ layers S <> [] /\
+      let top := last (layers S) [] in
+      (forall q, In q (proper_prefixes pp) -> is_file_at top q = false) /\ l_get top pp <> Some Dir.
+  Proof. exact (write_ok_iff compress). Qed.
+
+  (* the return value in every case: localisation / path error first, then the codec's error, then NoWriteableLayers
+     (unreachable after fs_new), then Ok or WriteError by the executable criterion [can_write] on the top layer *)
+  Theorem C12_write_result : forall S p b loc,
+    snd (fs_write compress S p b loc) =
+      fbind (fs_addr S p loc) (fun sa =>
+      fbind (encode_by_name compress S p b) (fun _ =>
+      match layers S with
+      | [] => FErr ENoWriteableLayers
+      | _ => if can_write (last (layers S) []) (snd sa) then FOk tt else FErr EWrite
+      end)).
+  Proof. exact (write_result compress). Qed.
+  Theorem C12_can_write_spec : forall L pp tr, can_write L (pp, tr) = true <->
+    tr = false /\ (forall q, In q (proper_prefixes pp) -> is_file_at L q = false) /\ l_get L pp <> Some Dir.
+  Proof. exact can_write_spec. Qed.
+
+  (* create_dir succeeds IFF the path localizes to a modelled path (a trailing '/' and the root "" are fine), there is a
+     layer, and in the TOP layer neither the target nor any ancestor is a file; otherwise IOError (or the path error) *)
+  Theorem C12_create_dir_ok_iff : forall S p loc,
+    snd (fs_create_dir S p loc) = FOk tt <->
+    exists s pp tr, fs_addr S p loc = FOk (s, (pp, tr)) /\ layers S <> [] /\
+      forall q, In q (prefixes pp) -> is_file_at (last (layers S) []) q = false.
+  Proof. exact create_dir_ok_iff. Qed.
+  Theorem C12_create_dir_result : forall S p loc,
+    snd (fs_create_dir S p loc) =
+      fbind (fs_addr S p loc) (fun sa =>
+      match layers S with
+      | [] => FPanic PIndex
+      | _ => if can_create_dir (last (layers S) []) (snd sa) then FOk tt else FErr EIo
+      end).
+  Proof. exact create_dir_result. Qed.
+
+  (* frame of create_dir (any path, localized or not, whatever it returns): every read and every file_exists query answers
+     as before; what existed / was a directory still is.  (exists, directory_exists and listings may GAIN the created
+     directories, resolve may move up to the top layer.)  Together with C12_create_dir_top_only this covers create_dir
+     inside the histories of the property's quantifier. *)
+  Theorem C12_create_dir_frame : forall S q l S' r, fs_create_dir S q l = (S', r) ->
+    (forall p loc, fs_read decompress S' p loc = fs_read decompress S p loc) /\
+    (forall p loc, fs_file_exists S' p loc = fs_file_exists S p loc) /\
+    (forall p loc, fs_exists S p loc = FOk true -> fs_exists S' p loc = FOk true) /\
+    (forall p loc, fs_directory_exists S p loc = FOk true -> fs_directory_exists S' p loc = FOk true).
+  Proof. exact (create_dir_frame decompress). Qed.
+
+  (* frame over the HISTORIES of the property's quantifier (fs_run: read / write / create_dir / queries / listings), any codec:
+     [op_elsewhere S pp o] = o is not a write addressed to pp (create_dir calls and everything else are unrestricted); along such
+     a history read p and file_exists p answer as before, and read-after-write survives it *)
+  Theorem C12_op_elsewhere_is : forall S pp o,
+    op_elsewhere S pp o <->
+    match o with OWrite q _ l => forall s qq tr, fs_addr S q l = FOk (s, (qq, tr)) -> qq <> pp | _ => True end.
+  Proof. intros S pp o. split; exact (fun H => H). Qed.       (* unfolding lemma *)
+  Theorem C12_run_keeps_read : forall os S p loc s a,
+    fs_addr S p loc = FOk (s, a) -> Forall (op_elsewhere S (fst a)) os ->
+    fs_read decompress (fs_run compress decompress S os) p loc = fs_read decompress S p loc /\
+    fs_file_exists (fs_run compress decompress S os) p loc = fs_file_exists S p loc.
+  Proof. exact (fs_run_keeps_read compress decompress). Qed.
+  Theorem C12_read_after_write_history : forall (dom : cfmt -> bytes -> Prop),
+    (forall f b c, dom f b -> compress f b = Ok c -> decompress f c = Ok b) ->
+    forall S p b loc S1 os,
+    fs_write compress S p b loc = (S1, FOk tt) -> dom (c_comp (conf S)) b ->
+    (forall s pp tr, fs_addr S p loc = FOk (s, (pp, tr)) -> Forall (op_elsewhere S pp) os) ->
+    fs_read decompress (fs_run compress decompress S1 os) p loc = FOk b.
+  Proof. exact (read_after_write_history compress decompress). Qed.
+End WhenOk.
+
+(* with the models of the real codecs, after fs_new, below 16 MiB: success depends on the path and the top layer only *)
+Theorem C12_write_ok_iff_real : forall mc ls l g S p b loc, fs_new ls l g = FOk S -> lenN b < 2 ^ 24 ->
+  (snd (fs_write (real_compress mc) S p b loc) = FOk tt <->
+   exists s pp, fs_addr S p loc = FOk (s, (pp, false)) /\
+     let top := last (layers S) [] in
+     (forall q, In q (proper_prefixes pp) -> is_file_at top q = false) /\ l_get top pp <> Some Dir).
+Proof. exact real_write_ok_iff. Qed.
+
+(* non-vacuity, both directions.  Lower layer: FILE "f", directory "d"; top layer: directory "d", FILE "d/g".
+   - "f/x": the file "f" in the LOWER layer does not block the write (the top layer gets a directory "f");
+   - "d/g/x": through the top layer's file: WriteError, nothing changes;  "d": onto a directory: WriteError;  "": the root: WriteError;
+   - "d/n/" (trailing '/'): WriteError;  create_dir "d/g/k": IOError;  create_dir "d/": Ok *)
+Definition ok_lower : layer := [([[102]], File [1]); ([[100]], Dir)].
+Definition ok_upper : layer := [([[100]], Dir); ([[100]; [103]], File [2])].
+Definition ok_fs : fsys := mkFs [ok_lower; ok_upper] (mkConfig LZ13 GFE13 LE Unicode) EnglishNA.
+Definition ok_id (f : cfmt) (b : bytes) : outcome bytes := Ok b.
+Example C12_example_when_ok :
+  snd (fs_write ok_id ok_fs [102; 47; 120] [7] false) = FOk tt /\
+  fs_read ok_id (fst (fs_write ok_id ok_fs [102; 47; 120] [7] false)) [102] false = FOk [1] /\
+  fs_write ok_id ok_fs [100; 47; 103; 47; 120] [7] false = (ok_fs, FErr EWrite) /\
+  fs_write ok_id ok_fs [100] [7] false = (ok_fs, FErr EWrite) /\
+  fs_write ok_id ok_fs [] [7] false = (ok_fs, FErr EWrite) /\
+  snd (fs_write ok_id ok_fs [100; 47; 110; 47] [7] false) = FErr EWrite /\
+  fs_create_dir ok_fs [100; 47; 103; 47; 107] false = (ok_fs, FErr EIo) /\
+  snd (fs_create_dir ok_fs [100; 47] false) = FOk tt /\ snd (fs_create_dir ok_fs [] false) = FOk tt.
+Proof. vm_compute. repeat split. Qed.
+(* a history with create_dir: write "d/n" = [7]; create_dir "d/k/"; create_dir "d/n/x" (fails: through the file); write "f/x"; list; read "d/n" *)
+Definition ok_history : list op :=
+  [OCreateDir [100; 47; 107; 47] false; OCreateDir [100; 47; 110; 47; 120] false; OWrite [102; 47; 120] [9] false;
+   OList [100] PAll false; OExists [100; 47; 107] false].
+Example C12_example_history_create_dir :
+  exists S1, fs_write ok_id ok_fs [100; 47; 110] [7] false = (S1, FOk tt) /\
+  Forall (op_elsewhere ok_fs [[100]; [110]]) ok_history /\
+  fs_read ok_id (fs_run ok_id ok_id S1 ok_history) [100; 47; 110] false = FOk [7] /\
+  fs_exists (fs_run ok_id ok_id S1 ok_history) [100; 47; 107] false = FOk true.
+Proof.
+  eexists. split; [vm_compute; reflexivity|]. split; [|split; [vm_compute; reflexivity | vm_compute; reflexivity]].
+  unfold ok_history. repeat constructor. unfold op_elsewhere. intros s qq tr H.
+  assert (E : fs_addr ok_fs [102; 47; 120] false = FOk ([102; 47; 120], ([[102]; [120]], false))) by (vm_compute; reflexivity).
+  rewrite E in H. injection H as _ <- _. discriminate.
+Qed.
 
 (* exists / file_exists / directory_exists / resolve: the same top-down search over the same addressed location *)
 Theorem C12_queries_same_search : forall S p loc s a,
@@ -177,7 +316,11 @@ Theorem C12_search_top_spec : forall P ls i L,
   nth_error ls i = Some L /\ P L = true /\ (forall j L', (i < j)%nat -> nth_error ls j = Some L' -> P L' = false).
 Proof. exact search_top_some. Qed.
 
-(* the typed helpers are the byte-level read / write composed with the codec configured for the game *)
+(* the typed helpers are the byte-level read / write composed with the codec configured for the game.
+   UNFOLDING LEMMA (C12_typed_helpers; proof: the configuration table + `repeat split`): the model's helpers are DEFINED as
+   that composition, as the Rust helpers (layered_filesystem.rs:364-455) literally are; the only content is that the
+   endianness / text format they pass are the ones of the specification table [spec_game].  The sentence of the property
+   is carried by the model text + the correspondence stream typed-e2e, and by the C12_e2e_* round trips below. *)
 Section Typed.
   Variable compress decompress : cfmt -> bytes -> outcome bytes.
   Variables BinA TextA ArcA Tex : Type.
@@ -357,7 +500,9 @@ From Mila Require Model.BinArchive Model.BinFormat Model.TextMap Model.TextForma
   Proofs.TextFormatWrite Proofs.TextFormatRoundTrip Proofs.TextBinBridge Proofs.ArcProofs Proofs.TexDecode.
 
 (* each helper = byte-level read + real parser with the CONFIGURED endianness / text format, or real serializer (with the
-   parameters stored in the archive value) + byte-level write *)
+   parameters stored in the archive value) + byte-level write.
+   UNFOLDING LEMMAS (C12_e2e_helpers_unfold, C12_e2e_same_codec; proofs by reflexivity): they display the definitions of
+   Model/FsTyped.v so that the statements below can be read without it; they prove nothing about the code. *)
 Theorem C12_e2e_helpers_unfold : forall mc md S p loc,
   read_archive md S p loc = fbind (read_file md S p loc) (fun b => lift_parse (BinFormat.from_bytes (c_endian (conf S)) b)) /\
   read_text_archive md S p loc = fbind (read_file md S p loc) (fun b => lift_parse (parse_text (c_text (conf S)) (c_endian (conf S)) b)) /\
@@ -401,7 +546,8 @@ Theorem C12_e2e_typed_read_top_wins : forall md A (parse : bytes -> outcome A) S
      fbind (decode_by_name (lz_decompress md) S p raw) (fun b => lift_parse (parse b)) = r).
 Proof. exact (@typed_read_top_wins). Qed.
 
-(* (a) write_archive -> read_archive: the archive read back is related to the written one exactly as in C01_round_trip *)
+(* (a) write_archive -> read_archive: the archive read back is related to the written one exactly as in C01_round_trip.
+   C12_e2e_same_archive_is_C01 is an UNFOLDING LEMMA (proof `fun H => H`): it spells out the definition [same_archive]. *)
 Theorem C12_e2e_same_archive_is_C01 : forall a a' : BinArchive.archive,
   same_archive a a' <->
   (BinArchive.a_endian a' = BinArchive.a_endian a /\ BinArchive.a_cstrs a' = [] /\
@@ -586,7 +732,8 @@ Theorem C12_e2e_write_text_archive_lower_untouched : forall mc S p a loc S' r,
   conf S' = conf S /\ lng S' = lng S /\ length (layers S') = length (layers S) /\ removelast (layers S') = removelast (layers S).
 Proof. exact write_text_archive_lower_untouched. Qed.
 (* success: the top layer holds at the addressed location a valid LZ10 / wrapped LZ11 stream of the IMAGE (compressed name) or
-   the image itself, directories at its ancestors, and is unchanged everywhere else *)
+   the image itself, directories at its ancestors, and is unchanged everywhere else.
+   C12_e2e_top_layer_effect_is is an UNFOLDING LEMMA (proof `fun H => H`): it spells out the definition [top_layer_effect]. *)
 Theorem C12_e2e_top_layer_effect_is : forall S S' pp c,
   top_layer_effect S S' pp c <->
   (pp <> [] /\ layers S <> [] /\
@@ -641,7 +788,8 @@ Theorem C12_e2e_write_frame_read : forall compress decompress S q b locq S' r p 
   (forall s' qq trq, fs_addr S q locq = FOk (s', (qq, trq)) -> qq <> fst a) ->
   fs_read decompress S' p loc = fs_read decompress S p loc.
 Proof. exact write_frame_read. Qed.
-(* [writes_elsewhere S pp o]: o is a read, or a (typed) write whose addressed location is not pp *)
+(* [writes_elsewhere S pp o]: o is a read, or a (typed) write whose addressed location is not pp.
+   UNFOLDING LEMMA (proof `fun H => H`): it spells out the definition. *)
 Theorem C12_e2e_writes_elsewhere_is : forall S pp o,
   writes_elsewhere S pp o <->
   match o with
